@@ -125,13 +125,19 @@ def index_nd(ctx, shape, lkinds, kinds, via='getitem', trim=False, qkind=None, d
         finally:
             ctx.da.set_option('indexing.by', 'label')
         f = lambda: a2.ix[tup]
-    elif via == 'loc-under-position':
+    elif via in ('loc-under-position', 'sel-under-position', 'take-label-under-position', 'sel-option-still-on'):
         ctx.da.set_option('indexing.by', 'position')
         try:
             a2 = ctx.mk(dims, labels, ref.cells, lkinds=lkinds, kind=dkind, register=False)
         finally:
-            ctx.da.set_option('indexing.by', 'label')
-        f = lambda: a2.loc[tup]
+            if via != 'sel-option-still-on':
+                ctx.da.set_option('indexing.by', 'label')
+        if via == 'loc-under-position':
+            f = lambda: a2.loc[tup]
+        elif via == 'take-label-under-position':
+            f = lambda: a2.take(tup, indexing='label')
+        else:
+            f = lambda: a2.sel(**dict(nonfull))
     else:
         raise ValueError(via)
     r = ctx.call(f)
@@ -349,6 +355,29 @@ def ellipsis_nd(ctx, shape, lkinds, via, kinds):
     return ctx.done(same(ctx, r[1], ref.select(sel)), ctx.observe(r[1]))
 
 
+def shared_index_object(ctx, via, form):
+    """one index object used for two dimensions of different length (and again afterwards): every use selects what NumPy selects,
+    and the object is left as it was"""
+    a, ref, dims, labels = build(ctx, [3, 2], ['U', 'i'])
+    raw = [-1, 0]
+    idx = ctx.nparray(raw, kind='i') if form == 'ndarray' else list(raw)
+    if via == 'iloc':
+        r = ctx.call(lambda: a.iloc[idx, idx])
+    elif via == 'ix':
+        r = ctx.call(lambda: a.ix[idx, idx])
+    elif via == 'take':
+        r = ctx.call(lambda: a.take((idx, idx), indexing='position'))
+    else:
+        r = ctx.call(lambda: a.isel(x=idx, y=idx))
+    if r[0] != 'ok':
+        return ctx.done(False, r[1])
+    oks = [same(ctx, r[1], ref.select([[2, 0], [1, 0]]))]
+    oks.append((idx.tolist() if form == 'ndarray' else idx) == raw)
+    r2 = ctx.call(lambda: a.ix[idx])
+    oks.append(r2[0] == 'ok' and same(ctx, r2[1], ref.select([[2, 0], [0, 1]])))
+    return ctx.done(ctx.AND(*oks), ctx.observe(r[1]))
+
+
 def zero_d(ctx):
     v = ctx.real('v')
     a = ctx.da.DimArray(ctx.np.array(v))
@@ -392,7 +421,8 @@ def templates():
     for dk in 'ib':
         add('1d-data-%s' % dk, 'index_nd', cost=1, shape=[3], lkinds=['i'], kinds=['list2'], dkind=dk)
     # spellings, 2-D, single indexed dimension
-    for via in ('take', 'takedict', 'takedictpos', 'loc', 'locdict', 'sel', 'takeaxisname', 'takeaxispos', 'ix-under-position', 'loc-under-position'):
+    for via in ('take', 'takedict', 'takedictpos', 'loc', 'locdict', 'sel', 'takeaxisname', 'takeaxispos', 'ix-under-position', 'loc-under-position',
+                'sel-under-position', 'take-label-under-position', 'sel-option-still-on'):
         for dim in (0, 1):
             for kind in ('scalar', 'list2', 'mask'):
                 kinds = ['full', 'full']
@@ -449,6 +479,9 @@ def templates():
         for shape, lks in (([3], ['i']), ([2, 3], ['U', 'i']), ([0], ['i'])):
             for rich in range(len(shape)):
                 add('pos-%s-%s-rich%d' % (via, 'x'.join(map(str, shape)), rich), 'position_nd', cost=1.5, shape=shape, lkinds=lks, via=via, rich=rich)
+    for via in ('iloc', 'ix', 'take', 'isel'):
+        for form in ('ndarray', 'list'):
+            add('shared-index-%s-%s' % (via, form), 'shared_index_object', cost=0.5, via=via, form=form)
     add('pos-ix-3d', 'position_nd', cost=4, shape=[2, 2, 3], lkinds=['i', 'U', 'f'], via='ix', rich=2)
     # Ellipsis in the key (NumPy's rule: it absorbs the dimensions not addressed explicitly)
     for via in ('getitem', 'ix', 'loc', 'take', 'take-position'):
